@@ -19,6 +19,7 @@ func init() {
 		Engines: []*core.Engine{
 			{Name: "m1/well-formed-programs", Count: core.FixedCount(30000, 1000000), Run: func(c *core.Ctx, idx int) { conc.RunC05M1(c) }, CPULimit: 60, BlockIsViolation: true},
 			{Name: "m1/exhaustive-tiny-programs", Count: core.FixedCount(len(conc.TinyPrograms), len(conc.TinyPrograms)), Run: func(c *core.Ctx, idx int) { conc.RunM1Exhaustive(c, idx, "C05") }, CPULimit: 1800},
+			{Name: "m1/preemption-bounded-programs", Count: core.FixedCount(len(conc.MediumPrograms), len(conc.MediumPrograms)), Run: func(c *core.Ctx, idx int) { conc.RunM1Bounded(c, idx, "C05") }, CPULimit: 1800},
 			{Name: "m2/real-scheduler-termination", Count: core.FixedCount(200, 4000), Run: conc.RunC05M2, CPULimit: 300, MaxWorkers: 4},
 			{Name: "constructors/m1", Count: core.FixedCount(65*6, 65*6), Run: conc.RunC05Constructor, Exhaustive: true, CPULimit: 60},
 			{Name: "constructors/parsed-literal", Count: core.FixedCount(65, 65), Run: func(c *core.Ctx, idx int) { conc.RunC05ParsedLiteral(c, idx) }, Exhaustive: true, CPULimit: 60},
@@ -50,6 +51,7 @@ func init() {
 		Engines: []*core.Engine{
 			{Name: "m1/programs", Count: core.FixedCount(40000, 1200000), Run: func(c *core.Ctx, idx int) { conc.RunC04M1(c) }, CPULimit: 60},
 			{Name: "m1/exhaustive-tiny-programs", Count: core.FixedCount(len(conc.TinyPrograms), len(conc.TinyPrograms)), Run: func(c *core.Ctx, idx int) { conc.RunM1Exhaustive(c, idx, "C04") }, CPULimit: 1800},
+			{Name: "m1/preemption-bounded-programs", Count: core.FixedCount(len(conc.MediumPrograms), len(conc.MediumPrograms)), Run: func(c *core.Ctx, idx int) { conc.RunM1Bounded(c, idx, "C04") }, CPULimit: 1800},
 			{Name: "m2/recorded-stress", Count: core.FixedCount(300, 6000), Run: conc.RunC04M2, CPULimit: 300, MaxWorkers: 4},
 			{Name: "m3/race-stress", Count: core.FixedCount(60, 480), Run: conc.RunC04M3, Race: true, MaxWorkers: 4, CPULimit: 900},
 		},
